@@ -61,6 +61,13 @@ def cases(rng, tier, Case):
             # (delimiter matching is quadratic in the number of runs: the emphasis family stays at 6000 so that an unoptimised
             # build under load stays far from the per-line time limit)
             res.append(Case("parse CsW 100 TW %s" % hx(d), "wide", {"cfg": "CsW", "nest": 100, "src": hx(d)}, compare=False))
+    # the limit is a public field of the parser object: lowering (or raising) it between two parses must bound the NEXT parse
+    # by the new value (seed C02-9: the limit copied into the compiled chains at first use)
+    for n0, n1 in ((100, 2), (5000, 10), (6, 1), (2, 100), (100, 0), (3, 3)):
+        for d in (">" * 90 + " a", "- " * 60 + "a", "[" * 80 + "a" + "]" * 80, "![" * 40 + "a" + "](u)" * 40, "> - " * 30 + "a"):
+            for warm in ("warm *up* `x` [l](u)\n\n> q\n\n- i", ">" * 20 + " w"):
+                script = "+CsW;P%s;N%d;P%s" % (hx(warm), n1, hx(d))
+                res.append(Case("hist %d TW %s" % (n0, script), "renest", {"cfg": "CsW", "nest": n1, "src": hx(d)}, compare=len(d) < 400))
     n = 300 if tier == "quick" else 20000
     for _ in range(n):
         d = mdgen.clean_utf8(mdgen.gen_doc(rng))
@@ -89,6 +96,12 @@ def oracle(case, io, mo):
     nest = case.params["nest"]
     if not io.startswith("ok "):
         return "did not return normally (stack exhaustion aborts the process): " + io[:120]
+    if case.tag == "renest":
+        # judge the last parse of the history against the limit in force when it ran
+        last = io[io.rindex(";P[") + 3:-1]
+        if not last.startswith("ok "):
+            return "did not return normally: " + last[:120]
+        io = last
     f = fields(io)
     bound = 3 * nest + 4
     full, noemph = depths(f["tree"])
